@@ -12,6 +12,8 @@ H_C04 = 200.0        # rest horizon C04 (virtual s): > 60 s incoming-ball timeou
 H_C05 = 300.0        # progress horizon C05
 SETTLE_CAP = 4000.0  # virtual seconds after which "the world never came to rest" (no verdict)
 
+SPIN_NUDGE_ITERATIONS = 5000    # after that many iterations at one instant the clock is moved to the next timer
+SPIN_FORCED_TIME_S = 120.0      # ... for at most that many forced virtual seconds per spin episode
 LIVELOCK_ITERATIONS = 100000   # loop iterations at one virtual instant (normal bursts are a few hundred)
 
 
@@ -107,13 +109,27 @@ def gen_topology(rng, level):
         if lock and rng.random() < 0.5:
             mb["ball_locks"] = "bd_lock"
         logic["multiball"] = mb
-    if lock and rng.random() < 0.7:
+    mblock = False
+    if lock and lock["counter"] == "switch" and lock["ejector"] == "pulse" and not gottlieb and rng.random() < 0.4:
+        # the designed companion of ball_locks: a multiball_lock (mode device) keeps balls in the lock; two multiballs
+        # release from the same lock device
+        mblock = True
+        lock["slots"] = max(2, lock["slots"])
+        # enough balls that the trough can still serve when two are locked and replaced
+        balls = rng.randint(5, 6)
+        devices[0]["slots"] = max(devices[0]["slots"], balls)
+        devices[0]["initial"] = balls
+        logic["multiball_lock"] = {"device": "bd_lock", "balls_to_lock": 2}
+        logic["multiball"] = {"ball_count": rng.randint(2, 3), "shoot_again_s": rng.choice([0, 0, 5]),
+                              "ball_locks": "bd_lock"}
+        logic["multiball2"] = {"ball_count": rng.randint(1, 2), "ball_locks": "bd_lock"}
+    elif lock and rng.random() < 0.7:
         logic["ball_hold"] = {"device": "bd_lock", "balls_to_hold": rng.randint(1, lock["slots"])}
     topo = {"balls": balls, "source": "bd_trough" if kind == "direct" else "bd_plunger",
             "balls_per_game": rng.randint(1, 3), "devices": devices, "logic": logic,
             "kind": ("gt_" if gottlieb else "") + kind + ("2" if kind == "pulse" and lane_slots == 2 else "") +
             ("+drain" if has_drain else "") + ("+lock" + (lock["counter"][0] if lock["ejector"] != "hold" else "h") if lock else "") +
-            ("+en" if trough_ej == "enable" else "") + ("+vuk" if vuk else "")}
+            ("+en" if trough_ej == "enable" else "") + ("+vuk" if vuk else "") + ("+mbl" if mblock else "")}
     return topo
 
 
@@ -145,11 +161,37 @@ def gen_ops(rng, topo, n_ops, rests):
                 ["drain", rng.choice([0.2, 4.0]), tr], ["drain", gap, tr],
                 ["ev", "ev_add_ball", round(tr + after, 2)], ["wait", 9.0]]
 
+    pulse_devs = [d["name"] for d in topo["devices"] if d["ejector"] == "pulse" and d["counter"] == "switch" and
+                  d["name"] in ("bd_trough", "bd_lock")]
+
+    def coil_test():
+        """Coil test / service menu: a device's eject coil is pulsed 1-3 times although MPF did not ask for it; the
+        balls that were knocked out drain back later."""
+        dev = rng.choice(pulse_devs)
+        gaps = [rng.choice([0.1, 0.3, 1.0, 3.0, 6.0]) for _ in range(rng.randint(0, 2))]
+        seq = [["pulse", dev, rng.choice([0.5, 4.0])] + gaps, ["wait", rng.choice([9.0, 25.0])]]
+        for _ in range(len(gaps) + 1):
+            seq.append(["drain", rng.choice([0.6, 4.0, 9.0])])
+        return seq
+
     ops = [["wait", rng.choice([1.0, 3.0])]]
     if gottlieb and rng.random() < 0.6:
         ops += gt_fill()
+    elif pulse_devs and rng.random() < 0.12:
+        ops += coil_test() + [["rest"]]
     ops.append(["start"])
-    kinds = ["drain"] * 6 + ["pf"] * 2 + ["wait"] * 2 + ["start"] + ["ev:ev_add_ball"]
+    if "multiball_lock" in logic:
+        kinds_extra = ["ev:ev_mb2_start"]
+        if rng.random() < 0.7:
+            # fresh game: a second ball, both get locked, then both multiballs are started back to back
+            w = 45.0 if slow_lane else 12.0
+            first, second = rng.choice([("ev_mb_start", "ev_mb2_start"), ("ev_mb2_start", "ev_mb_start")])
+            ops += [["wait", w], ["ev", "ev_add_ball", 0.5], ["wait", w], ["lock", rng.choice([0.2, 1.5])],
+                    ["lock", rng.choice([1.5, 4.0, 9.0])], ["ev", first, rng.choice([4.0, 9.0])],
+                    ["ev", second, rng.choice([0.0, 0.0, 0.03, 0.5, 2.0])], ["wait", 25.0], ["rest"]]
+    else:
+        kinds_extra = []
+    kinds = ["drain"] * 6 + ["pf"] * 2 + ["wait"] * 2 + ["start"] + ["ev:ev_add_ball"] + kinds_extra
     if has_lock:
         kinds += ["lock"] * 4
     if "bd_vuk" in names:
@@ -165,6 +207,8 @@ def gen_ops(rng, topo, n_ops, rests):
     bursts = ["double_request"]     # a second (third) manual request while the first eject is still running
     if gottlieb:
         bursts.append("gt_fill")
+    if "multiball_lock" in logic:
+        bursts += ["lock_mb", "lock_mb"]    # lock two balls, then start both multiballs back to back
     if "multiball" in logic and "ball_save" in logic:
         bursts.append("mb_save")        # several balls in play, ball save active, drains close together
     if "bd_plunger" in names:
@@ -175,6 +219,9 @@ def gen_ops(rng, topo, n_ops, rests):
         if bursts and rng.random() < (0.2 if pure_mech else 0.12):
             b = rng.choice(bursts + (["held_lane"] if pure_mech else []))
             if b == "mb_save":
+                if rng.random() < 0.5:
+                    ops.append(["start"])
+                    ops.append(["wait", 45.0 if slow_lane else 12.0])
                 ops.append(["ev", "ev_mb_start", rng.choice([0.2, 1.5, 4.0])])
                 ops.append(["wait", rng.choice([9.0, 25.0, 45.0])])
                 ops.append(["ev", "ev_save_enable", 0.2])
@@ -186,6 +233,18 @@ def gen_ops(rng, topo, n_ops, rests):
                     ops.append(["ev", "ev_add_ball", rng.choice([0.3, 1.5, 3.0, 5.0])])
             elif b == "gt_fill":
                 ops += gt_fill()
+            elif b == "lock_mb":
+                ops.append(["start"])            # (a game may be over by now; in a running game this is ignored/adds a player)
+                ops.append(["wait", 45.0 if slow_lane else 12.0])
+                ops.append(["ev", "ev_add_ball", rng.choice([0.2, 4.0])])
+                ops.append(["wait", 45.0 if slow_lane else 12.0])
+                ops.append(["lock", rng.choice([0.2, 1.5])])
+                ops.append(["lock", rng.choice([1.5, 4.0, 9.0])])
+                first, second = rng.choice([("ev_mb_start", "ev_mb2_start"), ("ev_mb2_start", "ev_mb_start")])
+                ops.append(["ev", first, rng.choice([4.0, 9.0])])
+                ops.append(["ev", second, rng.choice([0.0, 0.0, 0.03, 0.5, 2.0])])
+                ops.append(["wait", 25.0])
+                ops.append(["rest"])
             else:
                 ops.append(["ev", rng.choice(["ev_req_plunger", "ev_mb_add", "ev_mb_start"]), rng.choice(DTS)])
                 ops.append(["lane", rng.choice([0.2, 0.6, 1.5])])
@@ -207,6 +266,8 @@ def gen_ops(rng, topo, n_ops, rests):
                 ops.append(["lock", rng.choice([0.03, 0.2, 0.6, 1.5])])
         if i + 2 in rest_at:
             ops.append(["rest"])
+            if pulse_devs and rng.random() < 0.15:
+                ops += coil_test()
     return ops
 
 
@@ -247,7 +308,7 @@ def gen_phys(rng, topo, fault_level):
 
 def shape_of(case):
     topo = case["topo"]
-    ops = "".join({"start": "S", "wait": "w", "drain": "D", "lock": "L", "vuk": "V", "lane": "l", "pf": "p", "ev": "e", "rest": "R"}.get(o[0], "?") for o in case["ops"])
+    ops = "".join({"start": "S", "wait": "w", "drain": "D", "lock": "L", "vuk": "V", "lane": "l", "pulse": "P", "pf": "p", "ev": "e", "rest": "R"}.get(o[0], "?") for o in case["ops"])
     faults = ",".join("%s:%s" % (k[3:5], "".join(x[0] if x != "back_late" else "B" for x in v))
                       for k, v in sorted(case["phys"].get("faults", {}).items()))
     holds = "h" + "".join(k[3] for k in sorted(case["phys"].get("holds", {})))
@@ -286,6 +347,7 @@ class Monitors:
         self._replacement = 0
         self._last_t = None
         self._same_t = 0
+        self._forced_time = 0.0
         self.livelocked = False
         self.mech_idle_ejects = {}
         self.idle_skips = {}
@@ -481,7 +543,22 @@ class Monitors:
         now = self.vm.loop.time()
         if now == self._last_t:
             self._same_t += 1
-            if self._same_t == LIVELOCK_ITERATIONS:
+            if self._same_t % SPIN_NUDGE_ITERATIONS == 0 and self._forced_time < SPIN_FORCED_TIME_S:
+                # The loop spins without the virtual clock advancing.  In real time the clock would advance while it
+                # spins (e.g. a busy wait for a timed switch handler), so move the clock to the next scheduled timer.
+                # Only a spin that survives SPIN_FORCED_TIME_S forced seconds is a livelock.
+                sched = getattr(self.vm.loop, "_scheduled", None)
+                if sched:
+                    when = min(h._when for h in sched if not h._cancelled) if any(not h._cancelled for h in sched) \
+                        else None
+                    if when is not None and when > now:
+                        self._forced_time += when - now
+                        self.obs["spin_clock_nudges"] = self.obs.get("spin_clock_nudges", 0) + 1
+                        self.vm.loop.set_time(when)
+                        self._same_t = 0
+                        self._last_t = when
+                        return
+            if self._same_t >= LIVELOCK_ITERATIONS:
                 # deterministic, in virtual time: the loop keeps running callbacks but the clock never advances
                 self.violation("C05", "idle_or_broken", "zero_time_livelock",
                                {"iterations_without_time_advancing": self._same_t,
@@ -491,6 +568,8 @@ class Monitors:
                 self.livelocked = True
                 raise Livelock()
         else:
+            if self._same_t < SPIN_NUDGE_ITERATIONS:
+                self._forced_time = 0.0         # the clock advanced by itself: not spinning
             self._last_t = now
             self._same_t = 0
         busy = 0
@@ -514,6 +593,13 @@ class Monitors:
             now = self.vm.loop.time()
             unnoticed = sum(1 for (t, dev, oc, by) in self.world.launch_log[-8:]
                             if by == "player" and oc != "weak" and now - t <= self.world.devs[dev].exit_delay + 1.2)
+            # ... and so may balls kicked out by a coil test: MPF credits them to the playfield only after
+            # exit_count_delay + idle_missing_ball_timeout (5 s), restarted by every further ball that leaves
+            last = {}
+            for (t, dev) in self.world.service_log[-12:]:
+                last[dev] = max(last.get(dev, 0), t)
+            unnoticed += sum(1 for (t, dev) in self.world.service_log[-12:]
+                             if now - last[dev] <= self.world.devs[dev].exit_delay + 6.5)
             if pf < -(busy + unnoticed):
                 self.violation("C04", "range", "playfield_count_negative",
                                {"playfield_balls": pf, "devices_not_idle": busy, "unnoticed_plunges": unnoticed,
@@ -569,7 +655,7 @@ def run_world_case(case, horizon):
     topo, phys = case["topo"], case["phys"]
     cfg = W.build_config(topo)
     trace = []
-    with VMachine(config=cfg, kind="plain") as vm:
+    with VMachine(config=cfg, modes=W.build_modes(topo), kind="plain") as vm:
         world = W.World(vm, topo, phys)
         mon = Monitors(vm, world, topo)
         crashed = None
@@ -595,6 +681,13 @@ def run_world_case(case, horizon):
                     vm.advance(float(op[1]))
                     if "bd_lock" in world.devs:
                         world.move_loose_ball("bd_lock", kind="lock_shots")
+                elif k == "pulse":
+                    # ["pulse", device, gaps...]: coil test fires the eject coil 1-3 times
+                    vm.advance(float(op[2]))
+                    world.service_pulse_coil(op[1])
+                    for gap in op[3:]:
+                        vm.advance(float(gap))
+                        world.service_pulse_coil(op[1])
                 elif k == "lane":
                     vm.advance(float(op[1]))
                     if "bd_plunger" in world.devs:
@@ -797,6 +890,24 @@ def evaluate_rest(mon, world, rested, horizon, trace):
                 mon.violation("C05", "request_served", "queued_request_not_served_while_ball_available",
                               {"device": n, "target": target.name, "source_with_ball": path[0].name,
                                "snapshot": snap})
+
+    # a request for T parked in the private queue of a device that has no sources (lock, playfield VUK) although
+    # another idle device on a path to T has an available ball (e.g. a multiball asked a lock for more than it can give)
+    if not mon.broken and not mon.missing_events and not world.service_log and \
+            "ball_hold" not in mon.topo.get("logic", {}):
+        src = devs[mon.topo["source"]]
+        supply = {xn for xn, x in devs.items() if x is src or x.find_path_to_target(src)}    # trough, plunger, drain
+        for n, d in devs.items():
+            if sources.get(n) or n in supply or not d._ball_requests:
+                continue        # only locks / playfield VUKs: devices that nothing feeds and that feed the playfield
+            for (target, _pc) in list(d._ball_requests):
+                mon.clauses["request_served"] += 1
+                donors = [x for xn, x in devs.items() if xn in supply and x.available_balls > 0 and
+                          states[xn] == "idle" and (x is target or x.find_path_to_target(target))]
+                if donors:
+                    mon.violation("C05", "request_served", "request_parked_at_device_without_sources",
+                                  {"device": n, "target": target.name, "idle_source_with_ball": donors[0].name,
+                                   "snapshot": snap})
 
     # delivery accounting (under-delivery only)
     if not mon.broken:
